@@ -18,6 +18,15 @@ BB = "weechess_core::board::BitBoard"
 MASK64 = (1 << 64) - 1
 
 
+def _dir_offset_fn(prog):
+    """The workspace function that turns a Direction into a board Offset: `impl Into<Offset> for Direction` or `impl From<Direction> for Offset`."""
+    into = "<" + A + "Direction as core::convert::Into<weechess_core::board::Offset>>::into"
+    if into in prog.bodies:
+        return into
+    frm = [n for n in prog.bodies if n.endswith("<impl core::convert::From<weechess_core::attacks::Direction> for weechess_core::board::Offset>::from")]
+    return frm[0] if len(frm) == 1 else into
+
+
 def run(ck):
     ck.explanation = (
         "M1: for each of the 64 rook and 64 bishop squares the extracted index term of the lookup function is constant-folded for every subset "
@@ -47,7 +56,7 @@ def run(ck):
 
 def direction_table(ck):
     """Direction variant name -> (df, dr), from <Direction as Into<Offset>>::into."""
-    b = ck.body("<" + A + "Direction as core::convert::Into<weechess_core::board::Offset>>::into", "M7")
+    b = ck.body(_dir_offset_fn(ck.prog), "M7")
     adt = ck.adt(A + "Direction", "M7")
     names = {v["discr"]: v["name"] for v in adt["variants"]}
     out = {}
@@ -731,5 +740,8 @@ def leaper_tables(ck, ctx):
     good = len(offc) == 1
     if good:
         a = [rtb.operand(x) for x in offc[0][1]["args"]]
-        good = a[1] == ("call", "<" + A + "Direction as core::convert::Into<weechess_core::board::Offset>>::into", (("param", 2),)) and cfg.in_cycle(ray, offc[0][0])
+        conv = _dir_offset_fn(prog)
+        # direction.into(): the impl itself, or core's blanket Into over a workspace `impl From<Direction> for Offset`
+        by_blanket = conv.endswith("for weechess_core::board::Offset>::from") and a[1] == ("call", "<T as core::convert::Into<U>>::into", (("param", 2),))
+        good = (a[1] == ("call", conv, (("param", 2),)) or by_blanket) and cfg.in_cycle(ray, offc[0][0])
     ck.req(good, "M7.ray_walk", "compute_ray", ray.where(), "compute_ray does not repeatedly step by direction.into()")
